@@ -141,6 +141,7 @@ class Sim:
         self.errors = []              # link_error_callback messages, with the index of the transmission
         self.pending_reply = None
         self.neg_frames = []
+        self.st_failed = 0
         self.executed = []
         self.drain_tail = 3
         self.drain_budget = None
@@ -241,6 +242,7 @@ class Sim:
             if ok:
                 self.accepted.append([e[1]] + list(e[2]))
             self.obs += [1 if ok else 0, self._n_send_errors() - n0]
+            self.st_failed += 0 if ok else 1
         elif e[0] == 'RW':                 # receive_packet(wait)
             if e[1] < 0 and self.drv.in_queue.empty():
                 self.obs.append(-8)        # would block for ever: not called
